@@ -287,9 +287,9 @@ def gen_items(rng, sec, n=None):
         elif col == "unit":
             items[k][1] = gen_unit(rng, rng.choice([16, 16, 40, 75]))
         elif col == "value":
-            items[k][2] = gen_value(rng, sec == "Curves", rng.choice([22, 22, 22, 60, 72, 73, 80, 150]))
+            items[k][2] = gen_value(rng, sec == "Curves", rng.choice([22, 22, 22, 60, 72, 73, 80, 150, 260]))
         else:
-            items[k][3] = gen_text(rng, rng.choice([30, 30, 75, 130]))
+            items[k][3] = gen_text(rng, rng.choice([30, 30, 75, 130, 260]))
     if n and rng.random() < 0.2:                  # blank mnemonic on a line with no further period
         k = rng.randrange(n)
         nodot = lambda t: t.replace(".", "")
